@@ -1050,3 +1050,74 @@ Example history_example :
    h_found "s2" "3.0" "current"] /\
   wf_db [h_s1; h_s2] = true.
 Proof. vm_compute. split; reflexivity. Qed.
+
+(* ================================================================== sessions: several live instances *)
+(* One process holds several Eups objects of DIFFERENT flavors (a look at what is declared for another platform next to
+   the native one).  The flavors an instance may look at - its own, then the configured fallbacks - belong to that
+   instance (Model/ResolveSeq.v, Section Sessions): in the code they come from utils.Flavor.getFallbackFlavors, whose
+   table is shared by every instance of the process.  For the model the statements are immediate; the correspondence
+   check (harness/c03multi.py) builds the instances in every order, asks each before and after the others exist, through
+   the cache and through the files, and compares every answer with the model run on the view and the asked instance's own
+   flavor list. *)
+
+(* the answers an instance gives in a session are those it gives when it is the only instance of the process: which
+   other instances exist, of which flavors, when they were built and what they were asked does not matter *)
+Theorem instances_do_not_interfere vcmp vmatch c insts db h k i :
+  nth_error insts k = Some i ->
+  answers_to k (run_session vcmp vmatch c insts db h) =
+  run_history vcmp vmatch c (i_flavors i) (i_vro i) db (map Ask (asks_of k h)).
+Proof. intros H. now apply session_is_own_history. Qed.
+Print Assumptions instances_do_not_interfere.
+
+(* the answer after any session is a function of the view, the question and the asked instance's own flavors and VRO *)
+Theorem session_answer_is_own vcmp vmatch c insts db h k i q :
+  nth_error insts k = Some i ->
+  run_session vcmp vmatch c insts db (h ++ [SAsk k q]) =
+  run_session vcmp vmatch c insts db h ++ [(k, answer_on vcmp vmatch c (i_flavors i) (i_vro i) db q)].
+Proof. intros H. rewrite run_session_app. cbn [run_session]. now rewrite H. Qed.
+Print Assumptions session_answer_is_own.
+
+(* a declaration for a foreign flavor is never chosen: the product a resolution returns is declared for one of the
+   flavors of the list it was given - the native flavor or one of its fallbacks *)
+Theorem foreign_flavor_never_chosen vcmp vmatch c db keep flavors depth vro rq p r :
+  wf_db db = true -> total_order_on vcmp (names_of db (rq_name rq)) ->
+  resolve_request vcmp vmatch c db keep None flavors depth vro rq = Ok (Some (p, r)) ->
+  In (fd_flavor p) flavors.
+Proof.
+  intros WF HT H. destruct (resolve_designates vcmp vmatch c db keep flavors depth vro rq WF HT) as [x [E D]].
+  rewrite H in E. injection E as <-. cbn [option_map fst] in D. symmetry in D. unfold designates in D.
+  apply first_some_in in D as [f [I G]]. apply designates_top_flavor in G as [G _]. now rewrite G.
+Qed.
+Print Assumptions foreign_flavor_never_chosen.
+
+(* in a session: whatever instances of other flavors are alive, a setup through instance k chooses a product of k's own
+   flavor list *)
+Corollary session_setup_stays_in_own_flavors vcmp vmatch c insts db h k i keep depth rq p r :
+  nth_error insts k = Some i ->
+  wf_db db = true -> total_order_on vcmp (names_of db (rq_name rq)) ->
+  last (run_session vcmp vmatch c insts db (h ++ [SAsk k (QSetup keep depth rq)])) (k, AFound None) =
+    (k, ASetup (Ok (Some (p, r)))) ->
+  In (fd_flavor p) (i_flavors i).
+Proof.
+  intros H WF HT. rewrite (session_answer_is_own vcmp vmatch c insts db h k i _ H), last_last. cbn [answer_on].
+  intro E. injection E as E. eapply foreign_flavor_never_chosen; eauto.
+Qed.
+Print Assumptions session_setup_stays_in_own_flavors.
+
+(* the circumstance: foo 2.0 is declared for DarwinX86 in s1, foo 1.0 for generic in s2, both current.  An instance for
+   Linux64 and one for DarwinX86 live side by side: the first is given s2's generic 1.0 - before and after the second is
+   built and asked - the second s1's 2.0 *)
+Definition ss_got (s v f : string) : answer :=
+  ASetup (Ok (Some (mkFound (lit s) (lit "foo") (lit v) (lit f), Some (ETag (lit "current"), None)))).
+Arguments ss_got (s v f)%string.
+
+Example session_example :
+  let s1 := mkStack (lit "s1") [(lit "foo", lit "2.0", lit "DarwinX86")] [(lit "foo", lit "DarwinX86", lit "current", lit "2.0")] in
+  let s2 := mkStack (lit "s2") [(lit "foo", lit "1.0", lit "generic")] [(lit "foo", lit "generic", lit "current", lit "1.0")] in
+  let a := mkInst [lit "Linux64"; lit "generic"] (ex_vro [] []) in
+  let b := mkInst [lit "DarwinX86"; lit "generic"] (ex_vro [] []) in
+  let ask := QSetup false 1 (ex_rq None None) in
+  run_session vcmp_simple vmatch_simple ex_cfg [a; b] [s1; s2]
+    [SBuild 0; SAsk 0 ask; SBuild 1; SAsk 1 ask; SAsk 0 ask] =
+  [(0, ss_got "s2" "1.0" "generic"); (1, ss_got "s1" "2.0" "DarwinX86"); (0, ss_got "s2" "1.0" "generic")].
+Proof. vm_compute. reflexivity. Qed.
